@@ -1,6 +1,10 @@
 (* C13 - Manifest writers change exactly the requested requirements.
    Only statements here; proofs are in PomPropsProofs.v / PkgJsonProofs.v / PomWriterProofs.v
-   (collected by Proofs.v). *)
+   (collected by Proofs.v).
+
+   State after the fix commits in /repo (package.json path escaping; generatePropertyPatches bounds and
+   repeated-property consistency): the former _refuted theorems are gone, the statements below are at
+   full strength over the models of the repaired code. *)
 From Coq Require Import List ZArith NArith Bool.
 From Scalibr Require Import Writers.GoBytes Writers.PomProps Writers.PkgJson Writers.PomWriter Writers.Proofs.
 Import ListNotations.
@@ -8,72 +12,62 @@ Open Scope N_scope.
 
 (* ================================================================== generatePropertyPatches *)
 
-(* Full statement "a reported success means the returned property values turn s1 into s2":
-   refuted by a template that uses one property twice. s1 = "${a}-${a}", s2 = "1-2":
-   the function answers ({a: "2"}, true) but interpolation gives "2-2". *)
-Theorem prop_patches_sound_refuted :
-  exists s1 s2 ps, generate_property_patches s1 s2 = Ok (ps, true) /\ subst ps s1 <> s2.
-Proof.
-  exists [36;123;97;125;45;36;123;97;125], [49;45;50], [([97],[49]); ([97],[50])].
-  split; [vm_compute; reflexivity|vm_compute; discriminate].
-Qed.
-Print Assumptions prop_patches_sound_refuted.
+(* A reported success means the returned property values turn s1 into s2: every s1, s2 (repeated
+   placeholders, stray braces, unclosed placeholders included). *)
+Theorem prop_patches_sound : forall s1 s2 ps,
+  generate_property_patches s1 s2 = Ok (ps, true) -> subst ps s1 = s2.
+Proof. exact prop_patches_sound_lemma. Qed.
+Print Assumptions prop_patches_sound.
 
-(* ... and it holds whenever no placeholder name occurs twice in s1 (any s1, s2 otherwise). *)
-Theorem prop_patches_sound_on_D : forall s1 s2 ps,
-  d_sound s1 = true -> generate_property_patches s1 s2 = Ok (ps, true) -> subst ps s1 = s2.
-Proof. exact prop_patches_sound_on_D_lemma. Qed.
-Print Assumptions prop_patches_sound_on_D.
-
-(* Full statement "never panics": refuted. s1 = "1.${x}", s2 = "1" -> s2[:2] out of range;
-   s1 = "${x}-jre", s2 = "1" -> s2[len(s2)-4:] out of range; s1 = "ab${x}bc", s2 = "abc" -> s2[2:1]. *)
-Theorem prop_patches_total_refuted :
-  exists s1 s2, generate_property_patches s1 s2 = Panic.
-Proof. exists [49;46;36;123;120;125], [49]. vm_compute. reflexivity. Qed.
-Print Assumptions prop_patches_total_refuted.
-
-Theorem prop_patches_total_refuted_suffix :
-  generate_property_patches [36;123;120;125;45;106;114;101] [49] = Panic /\
-  generate_property_patches [97;98;36;123;120;125;98;99] [97;98;99] = Panic.
-Proof. split; vm_compute; reflexivity. Qed.
-Print Assumptions prop_patches_total_refuted_suffix.
-
-(* ... and it holds for every well-formed template (>= 1 placeholder, no "}" in the literal text before the
-   last placeholder ends, no unclosed "${" after it) whose literal prefix fits into s2 and that either ends
-   with a placeholder or has one placeholder with prefix + suffix fitting into s2. *)
-Theorem prop_patches_total_on_D : forall s1 s2,
-  d_total s1 s2 = true -> generate_property_patches s1 s2 <> Panic.
-Proof. exact prop_patches_total_on_D_lemma. Qed.
-Print Assumptions prop_patches_total_on_D.
+(* Never panics: every s1, s2. *)
+Theorem prop_patches_total : forall s1 s2, generate_property_patches s1 s2 <> Panic.
+Proof. exact prop_patches_total_lemma. Qed.
+Print Assumptions prop_patches_total.
 
 (* the fuel of the model is never exhausted *)
 Theorem prop_patches_fuel_sufficient : forall s1 s2, generate_property_patches s1 s2 <> OutOfFuel.
 Proof. exact generate_never_out_of_fuel. Qed.
 Print Assumptions prop_patches_fuel_sufficient.
 
-(* non-vacuity: "1.${minor}-${q}" with distinct names, target "1.5-jre" *)
+(* non-vacuity: "1.${minor}-${q}" -> "1.5-jre" succeeds; the former failing inputs now answer false:
+   "1.${x}" / "1" (target shorter than the prefix), "${x}-jre" / "1" (shorter than the suffix),
+   "ab${x}bc" / "abc" (overlap), "${a}-${a}" / "1-2" (conflicting values); "${a}-${a}" / "1-1" succeeds *)
 Example prop_patches_example :
   let s1 := [49;46;36;123;109;125;45;36;123;113;125] in
   let s2 := [49;46;53;45;106;114;101] in
-  d_sound s1 = true /\ d_total s1 s2 = true /\
   generate_property_patches s1 s2 = Ok ([([109],[53]); ([113],[106;114;101])], true) /\
   subst [([109],[53]); ([113],[106;114;101])] s1 = s2.
+Proof. vm_compute. split; reflexivity. Qed.
+
+Example prop_patches_former_witnesses :
+  generate_property_patches [49;46;36;123;120;125] [49] = Ok ([], false) /\
+  generate_property_patches [36;123;120;125;45;106;114;101] [49] = Ok ([], false) /\
+  generate_property_patches [97;98;36;123;120;125;98;99] [97;98;99] = Ok ([], false) /\
+  generate_property_patches [36;123;97;125;45;36;123;97;125] [49;45;50] = Ok ([([97],[49])], false) /\
+  generate_property_patches [36;123;97;125;45;36;123;97;125] [49;45;49] = Ok ([([97],[49]); ([97],[49])], true).
 Proof. vm_compute. repeat split; reflexivity. Qed.
 
 (* ================================================================== package.json writer *)
 
 (* Exactness. For every document whose dependency sections have no repeated key, and every update list
    with pairwise different keys, each addressed to a requirement present in the file (the version npm
-   would use for the key: dev, else optional, else regular) under a gjson-path-safe name (no '.', '*',
-   '?'), Write succeeds and the written document is the input with exactly the addressed members
-   carrying the new version ... *)
-Theorem pkgjson_write_exact_on_safe_names : forall d ups,
+   would use for the key: dev, else optional, else regular) -- ANY name: dots, wildcards, scopes, pipes,
+   brackets ... -- Write succeeds and the written document is the input with exactly the addressed
+   members carrying the new version.
+   Residual domain (name_supported): gjson.Escape leaves ':' alone and sjson strips a leading ':' of a
+   path component as its "forced key" marker; that is not modelled, so names that START with ':' are
+   outside this theorem's domain and outside the oracle's claim. *)
+Theorem pkgjson_write_exact : forall d ups,
   wf_doc d = true ->
-  forallb (fun u => safe_name (upd_key u) && addressed d u) ups = true ->
+  forallb (fun u => name_supported (upd_key u) && addressed d u) ups = true ->
   distinct_keys ups = true ->
   write_pkgjson d ups = Some (spec_apply d ups).
-Proof. intros d ups. exact (write_pkgjson_exact ups d). Qed.
-Print Assumptions pkgjson_write_exact_on_safe_names.
+Proof.
+  intros d ups HW HA HD. apply (write_pkgjson_exact ups d HW); auto.
+  apply forallb_forall. intros u Hu. rewrite forallb_forall in HA. specialize (HA u Hu).
+  apply andb_true_iff in HA as [_ HA]. exact HA.
+Qed.
+Print Assumptions pkgjson_write_exact.
 
 (* ... where "exactly" means: every byte outside the version strings of the dependency sections is
    untouched (keys, order, whitespace, all other values), for ANY update list ... *)
@@ -94,9 +88,23 @@ Theorem pkgjson_no_updates_identity : forall d,
 Proof. intros d. split; [reflexivity|]. intros d' H. inversion H. reflexivity. Qed.
 Print Assumptions pkgjson_no_updates_identity.
 
-(* "never reports success without having applied an update": refuted for a dotted name.
-   {"dependencies": {"socket.io": "^2.0.0"}} with socket.io ^2.0.0 -> ^4.7.0: the path
-   "dependencies.socket.io" selects nothing, Write returns success and the unchanged document. *)
+(* "never reports success without having applied an update" *)
+Theorem pkgjson_success_implies_applied : forall d ups d',
+  wf_doc d = true ->
+  forallb (fun u => name_supported (upd_key u) && addressed d u) ups = true ->
+  distinct_keys ups = true ->
+  write_pkgjson d ups = Some d' ->
+  forall u, In u ups -> applied d' u = true.
+Proof.
+  intros d ups d' HW HA HD H u Hu.
+  rewrite (pkgjson_write_exact d ups HW HA HD) in H. inversion H; subst d'.
+  apply applied_lemma; auto.
+  rewrite forallb_forall in HA. specialize (HA u Hu). apply andb_true_iff in HA as [_ HA]. exact HA.
+Qed.
+Print Assumptions pkgjson_success_implies_applied.
+
+(* non-vacuity 1: the former failing inputs. {"dependencies": {"socket.io": "^2.0.0"}} with
+   socket.io ^2.0.0 -> ^4.7.0 is applied; {"ab": "2.0.0", "a*": "2.0.0"} with a* -> 2.0.1 changes "a*" only. *)
 Definition socket_io : bytes := [115;111;99;107;101;116;46;105;111].
 Definition dotted_doc : doc :=
   {| d_lead := []; d_empty_ws := []; d_trail := [10];
@@ -105,15 +113,6 @@ Definition dotted_doc : doc :=
                                             m_val := [94;50;46;48;46;48]; m_post := [10;32;32] |} ] [] |} ] |}.
 Definition dotted_upd : jupdate :=
   {| u_name := socket_io; u_known_as := None; u_from := [94;50;46;48;46;48]; u_to := [94;52;46;55;46;48] |}.
-
-Theorem pkgjson_dotted_name_dropped_refuted :
-  exists d u, wf_doc d = true /\ addressed d u = true /\
-              write_pkgjson d [u] = Some d /\ applied d u = false.
-Proof. exists dotted_doc, dotted_upd. vm_compute. repeat split; reflexivity. Qed.
-Print Assumptions pkgjson_dotted_name_dropped_refuted.
-
-(* exactness itself is refuted for a wildcard-looking name: {"ab": "2.0.0", "a*": "2.0.0"} with
-   a* 2.0.0 -> 2.0.1 rewrites the member "ab" (the name is used as a glob) and leaves "a*" alone. *)
 Definition wild_doc : doc :=
   {| d_lead := []; d_empty_ws := []; d_trail := [];
      d_items := [ {| t_pre := []; t_key := PROD; t_mid := [58]; t_post := [];
@@ -122,66 +121,45 @@ Definition wild_doc : doc :=
 Definition wild_upd : jupdate :=
   {| u_name := [97;42]; u_known_as := None; u_from := [50;46;48;46;48]; u_to := [50;46;48;46;49] |}.
 
-Theorem pkgjson_wildcard_name_refuted :
-  exists d u d', wf_doc d = true /\ addressed d u = true /\ write_pkgjson d [u] = Some d' /\
-                 render d' <> render (spec_apply d [u]) /\
-                 sec_get d' PROD [97;98] = Some (u_to u) /\ sec_get d' PROD (u_name u) = Some (u_from u).
-Proof.
-  exists wild_doc, wild_upd. eexists. vm_compute. repeat split; try reflexivity. discriminate.
-Qed.
-Print Assumptions pkgjson_wildcard_name_refuted.
+Example pkgjson_former_witnesses :
+  (exists d', write_pkgjson dotted_doc [dotted_upd] = Some d' /\ applied d' dotted_upd = true /\
+              sec_get d' PROD socket_io = Some (u_to dotted_upd)) /\
+  (exists d', write_pkgjson wild_doc [wild_upd] = Some d' /\
+              sec_get d' PROD [97;98] = Some (u_from wild_upd) /\ sec_get d' PROD [97;42] = Some (u_to wild_upd)).
+Proof. split; eexists; vm_compute; repeat split; reflexivity. Qed.
 
-(* ... and it holds on the domain of the exactness theorem *)
-Theorem pkgjson_success_implies_applied_on_safe_names : forall d ups d',
-  wf_doc d = true ->
-  forallb (fun u => safe_name (upd_key u) && addressed d u) ups = true ->
-  distinct_keys ups = true ->
-  write_pkgjson d ups = Some d' ->
-  forall u, In u ups -> applied d' u = true.
-Proof.
-  intros d ups d' HW HA HD H u Hu.
-  rewrite (write_pkgjson_exact ups d HW HA HD) in H. inversion H; subst d'.
-  apply applied_lemma; auto.
-  rewrite forallb_forall in HA. specialize (HA u Hu). apply andb_true_iff in HA as [_ HA]. exact HA.
-Qed.
-Print Assumptions pkgjson_success_implies_applied_on_safe_names.
-
-(* non-vacuity: two sections, an alias, the same key in dev and regular dependencies with different
-   versions (only dev is the requirement), a scoped name *)
+(* non-vacuity 2: two sections, an alias, the same key in dev and regular dependencies with different
+   versions (only dev is the requirement), a scoped dotted name *)
 Definition ex_mem (k v : bytes) : member := {| m_pre := [32]; m_key := k; m_mid := [58]; m_val := v; m_post := [] |}.
 Definition ex_doc : doc :=
   {| d_lead := []; d_empty_ws := []; d_trail := [];
      d_items := [ {| t_pre := []; t_key := [110]; t_mid := [58]; t_val := TRaw [34;120;34]; t_post := [] |};
                   {| t_pre := []; t_key := PROD; t_mid := [58]; t_post := [];
-                     t_val := TSection [ex_mem [97] [49]; ex_mem [64;115;47;112] [50]; ex_mem [122] (alias_ver [114] [51])] [] |};
+                     t_val := TSection [ex_mem [97] [49]; ex_mem [64;115;47;112;46;106] [50]; ex_mem [122] (alias_ver [114] [51])] [] |};
                   {| t_pre := []; t_key := DEV; t_mid := [58]; t_post := [];
                      t_val := TSection [ex_mem [97] [55]] [] |} ] |}.
 Definition ex_ups : list jupdate :=
   [ {| u_name := [97]; u_known_as := None; u_from := [55]; u_to := [56] |};
     {| u_name := [114]; u_known_as := Some [122]; u_from := [51]; u_to := [52] |};
-    {| u_name := [64;115;47;112]; u_known_as := None; u_from := [50]; u_to := [50;46;49] |} ].
+    {| u_name := [64;115;47;112;46;106]; u_known_as := None; u_from := [50]; u_to := [50;46;49] |} ].
 
 Example pkgjson_example :
   wf_doc ex_doc = true /\
-  forallb (fun u => safe_name (upd_key u) && addressed ex_doc u) ex_ups = true /\
+  forallb (fun u => name_supported (upd_key u) && addressed ex_doc u) ex_ups = true /\
   distinct_keys ex_ups = true /\
   option_map render (write_pkgjson ex_doc ex_ups) = Some (render (spec_apply ex_doc ex_ups)) /\
   render (spec_apply ex_doc ex_ups) <> render ex_doc /\
   sec_get (spec_apply ex_doc ex_ups) PROD [97] = Some [49] /\
   sec_get (spec_apply ex_doc ex_ups) DEV [97] = Some [56] /\
-  sec_get (spec_apply ex_doc ex_ups) PROD [122] = Some (alias_ver [114] [52]).
+  sec_get (spec_apply ex_doc ex_ups) PROD [122] = Some (alias_ver [114] [52]) /\
+  sec_get (spec_apply ex_doc ex_ups) PROD [64;115;47;112;46;106] = Some [50;46;49].
 Proof. vm_compute. repeat split; try reflexivity. discriminate. Qed.
 
 (* ================================================================== pom.xml writer *)
 (* Only the panic behaviour of Write is modelled (PomWriter.v): Write panics iff one of the
-   generatePropertyPatches calls of buildPatches panics. The token-level rewrite is decided by the
-   harness's round-trip oracle; pom_no_updates_identity / pom_tokens_preserved are NOT proved. *)
-Theorem pom_write_never_panics_on_D : forall pairs,
-  forallb (fun p => d_total (fst p) (snd p)) pairs = true -> write_panics pairs = false.
-Proof. exact write_panics_false_on_D. Qed.
-Print Assumptions pom_write_never_panics_on_D.
-
-(* <version>1.${minor}</version> updated to "1" *)
-Theorem pom_write_panics_refuted : exists pairs, write_panics pairs = true.
-Proof. exists [([49;46;36;123;109;105;110;111;114;125], [49])]. vm_compute. reflexivity. Qed.
-Print Assumptions pom_write_panics_refuted.
+   generatePropertyPatches calls of buildPatches panics -- which, since the fix, is never. The token-level
+   rewrite and the origin selection of buildPatches are decided by the harness's round-trip oracle;
+   pom_no_updates_identity / pom_tokens_preserved are NOT proved. *)
+Theorem pom_write_never_panics : forall pairs, write_panics pairs = false.
+Proof. exact write_never_panics. Qed.
+Print Assumptions pom_write_never_panics.
